@@ -49,9 +49,20 @@ def check_spec(ctx, case, gt, sp, generations=2):
             "C01", "api-construction:" + irio.general_path(d[0]),
             "IR built through the public API differs from its spec: %s"
             % d[0], {"diffs": d, "build_routes": sorted(stats)})
-    raw = irio.save(ir)
+    via_path = rnd.random() < 0.15
+    if via_path:
+        ctx.count("io:via_path")
+        raw = irio.save_via_path(ir, rnd)
+        if raw != irio.save(ir) and irio.message_data(gt, raw) != \
+                irio.message_data(gt, irio.save(ir)):
+            raise Discrepancy("C01", "save_protobuf-path-differs",
+                              "save_protobuf(path) wrote different content "
+                              "than save_protobuf_file(stream)", {})
+    else:
+        raw = irio.save(ir)
     try:
-        ir2 = irio.load(gt, raw)
+        ir2 = irio.load_via_path(gt, raw, rnd) if via_path \
+            else irio.load(gt, raw)
     except Exception as e:
         raise Discrepancy("C01", "load-rejects-saved-file:%s"
                           % type(e).__name__,
@@ -105,6 +116,8 @@ def run(ctx):
         rnd = case.rnd
         profile = rnd.choice(["tiny", "mixed", "mixed", "mixed", "wide",
                               "refs"])
+        if ctx.tier == "thorough" and rnd.random() < 0.02:
+            profile = "big"  # thousands of nodes
         sp = gspec.gen_spec(rnd, gtirb, profile)
         case.ops = [{"spec": sp}]
         ctx.count("cases")
